@@ -179,7 +179,11 @@ pub fn watch() -> &'static Arc<Watch> {
                             h(&name);
                         }
                         eprintln!("vh: watchdog: case did not finish within {:?}: {name}", w2.limit);
-                        std::process::exit(3);
+                        // (a verdict already printed stands: the hang is then the harness struggling
+                        // with the same broken behaviour, e.g. a workload that is only small while
+                        // the property holds)
+                        let verdict = crate::report::VIOLATIONS_PRINTED.load(std::sync::atomic::Ordering::SeqCst) > 0;
+                        std::process::exit(if verdict { 1 } else { 3 });
                     }
                 }
             }
